@@ -178,6 +178,39 @@ Proof.
     + intros Hc. rewrite (H1 c Hc). reflexivity.
 Qed.
 
+(* FileSink: when success is reported and no Write failed after taking part of the value, the destination received exactly the value *)
+Theorem filesink_success_received k fmt t F cs : filesink_process k fmt t F = (SOk, cs) -> k <> PNull ->
+  (forall val, lookup (eff_format fmt) t = Some val -> fst (write_to (fs_w1 F) val) = SErr -> fst (fs_w1 F val) = 0%N) ->
+  exists val, lookup (eff_format fmt) t = Some val /\ received cs = val.
+Proof.
+  intros H Hk Hclean. unfold filesink_process in H. destruct (lookup (eff_format fmt) t) as [val|] eqn:El.
+  2:{ destruct k; try contradiction; discriminate. }
+  exists val. split; [reflexivity|]. specialize (Hclean val eq_refl).
+  assert (Hw1 : forall c1, write_to (fs_w1 F) val = (SOk, c1) -> received c1 = val) by (intros c1; apply write_to_ok_received).
+  assert (Hc1 : forall c1, write_to (fs_w1 F) val = (SErr, c1) -> received c1 = []).
+  { intros c1 E1. rewrite E1 in Hclean. specialize (Hclean eq_refl). unfold write_to in E1. destruct val as [|x r]; [discriminate|].
+    destruct (fs_w1 F (x :: r)) as [n err]. cbn [fst] in Hclean. subst n. cbn in E1.
+    destruct err; injection E1 as <-; reflexivity. }
+  destruct k; [contradiction| | |]; cbn [negb andb] in H.
+  - destruct (write_to (fs_w1 F) val) as [r1 c1] eqn:E1. destruct r1; try discriminate. injection H as <-. apply Hw1. reflexivity.
+  - destruct (write_to (fs_w1 F) val) as [r1 c1] eqn:E1. destruct r1; try discriminate. injection H as <-. apply Hw1. reflexivity.
+  - destruct (fs_open_ok F); cbn [negb] in H; [|discriminate].
+    destruct (write_to (fs_w1 F) val) as [r1 c1] eqn:E1. destruct r1; try discriminate.
+    + injection H as <-. apply Hw1. reflexivity.
+    + destruct (fs_reopen_ok F); [|discriminate]. destruct (write_to (fs_w2 F) val) as [r2 c2] eqn:E2. injection H as -> <-.
+      unfold received. rewrite map_app, concat_app. fold (received c1). fold (received c2). rewrite (Hc1 c1 eq_refl). cbn [app].
+      eapply write_to_ok_received; eauto.
+Qed.
+
+(* the full-strength statement "success => exactly the value arrived" is FALSE of the retry path: a first Write that fails
+   after taking part of the value, followed by a successful reopen and retry, leaves the partial bytes before the whole value *)
+Theorem filesink_retry_exactly_refuted : exists t F cs,
+  filesink_process PFile 0 t F = (SOk, cs) /\ lookup json_fmt t = Some [1; 2; 3; 4]%N /\ received cs = [1; 2; 1; 2; 3; 4]%N.
+Proof.
+  exists [(json_fmt, [1; 2; 3; 4]%N)], {| fs_open_ok := true; fs_w1 := fun _ => (2%N, true); fs_reopen_ok := true; fs_w2 := fun b => (lenN b, false) |}.
+  eexists. repeat split.
+Qed.
+
 (* ================= concurrent writer.Sink.Process calls ================= *)
 
 Definition cinv (vals : nat -> option (list N)) (s : cstate) : Prop :=
